@@ -13,7 +13,7 @@ from . import transports as T
 from .engine import Violation, gen_costs, collect_info
 from .harness import EOF, TIMEOUT
 from .kernel import PtyMaster, PtySlave, ECHO, ICANON, ISIG, ICRNL, OPOST, IEXTEN
-from .world import SimHang, HarnessError
+from .world import SimHang, HarnessError, SimInterrupt
 
 CONTROL_NAMES = [chr(c) for c in range(ord('a'), ord('z') + 1)] + ['@', '`', '[', '{', '\\', '|', ']', '}', '^', '~', '_', '?',
                                                                   'A', 'Z', '1', '!', ' ', '-']
@@ -179,6 +179,12 @@ def generate(rng, prop='C08'):
                 op['op'] = 'adrain'
                 op['to'] = rng.choice([0, 0, 0.001, 0.01, 0.02])
     scn['ops'] = ops
+    if tr == 'pty' and not scn.get('short_writes') and rng.random() < 0.1:
+        # an exception from outside (a raising signal handler, Ctrl-C) abandons a send in its delaybeforesend pause; the
+        # application sends again afterwards
+        scn['intr'] = sorted([rng.randint(1, 6), rng.choice([1, 50, 5000])] for _ in range(rng.randint(1, 2)))
+        if rng.random() < 0.5:
+            scn['delaybeforesend'] = rng.choice([0.05, 0.01])
     return scn
 
 
@@ -361,6 +367,7 @@ def run(scn, prop=None):
                     if not op.get('nodata') and 'd' not in op:
                         raise HarnessError('send op without data')
                     x = st() if op.get('nodata') else r.sconv(op['d'], op.get('as'))
+                    enc_saved = refenc.getstate() if refenc is not None else None
                     lv, bx = enc_native(x)
                     if kind == 'sendline':
                         lsep = child.linesep
@@ -371,8 +378,30 @@ def run(scn, prop=None):
                     events.append(('s', lv))
                     l0 = wire_len()
                     failed = None
+                    cur_logs = [periods[nm_][-1][0] for nm_ in ('logfile', 'logfile_send')
+                                if periods.get(nm_) and periods[nm_][-1][2] is None]
+                    nlog0 = [len(lg_.writes()) for lg_ in cur_logs]
                     try:
-                        ret = child.sendline() if op.get('nodata') else getattr(child, kind)(x)
+                        w.intr_armed = True
+                        try:
+                            ret = child.sendline() if op.get('nodata') else getattr(child, kind)(x)
+                        finally:
+                            w.intr_armed = False
+                    except SimInterrupt:
+                        # abandoned from outside in its pause before sending: nothing of it may have reached the peer, and
+                        # the calls that follow must come out as if this one had never been made (encoder state included)
+                        w.probe('send_abandoned_from_outside')
+                        delta = wire_bytes()[l0:]
+                        if delta:
+                            V('C08.bytes', '%s was abandoned in its pause before sending, yet %d bytes reached the peer' % (kind, len(delta)),
+                              op=kx, got=delta[:80])
+                        if refenc is not None:
+                            refenc.setstate(enc_saved)
+                        was_logged = any(len(lg_.writes()) > n0_ for lg_, n0_ in zip(cur_logs, nlog0))
+                        if not was_logged:
+                            sendlog.pop()
+                            events.pop()
+                        continue
                     except (OSError, _socket.timeout) as e:
                         if not (scn.get('send_fail') and isinstance(e, (_socket.timeout, TimeoutError))):
                             expected += bx
